@@ -38,8 +38,10 @@ import (
 
 type eng struct{}
 
-func (eng) Name() string                   { return "state" }
-func (eng) CoqRequire(mode string) string  { return "From Coq Require Import Uint63.\nFrom RV Require Import Model.StateStore Corr.Check_state." }
+func (eng) Name() string { return "state" }
+func (eng) CoqRequire(mode string) string {
+	return "From Coq Require Import Uint63.\nFrom RV Require Import Model.StateStore Corr.Check_state."
+}
 func (eng) CoqCaseType(mode string) string { return "Check_state.case" }
 func (eng) CoqRun(mode string) string      { return "Check_state.run" }
 func (eng) Rule(mode string) string {
@@ -291,9 +293,9 @@ func genCase(r *hx.Rand, idx int, tier string) *hx.Case {
 }
 
 func (eng) Generate(mode, tier string, r *hx.Rand) []*hx.Case {
-	n := 160
+	n := 120
 	if tier == "thorough" {
-		n = 1500
+		n = 800
 	}
 	cs := make([]*hx.Case, 0, n)
 	for i := 0; i < n; i++ {
@@ -325,7 +327,7 @@ type manualTimer struct {
 }
 
 func (t *manualTimer) Set(d time.Duration, do func()) { t.mu.Lock(); t.do = do; t.mu.Unlock() }
-func (t *manualTimer) Stop()                           { t.mu.Lock(); t.do = nil; t.mu.Unlock() }
+func (t *manualTimer) Stop()                          { t.mu.Lock(); t.do = nil; t.mu.Unlock() }
 func (t *manualTimer) fire() bool {
 	t.mu.Lock()
 	f := t.do
@@ -767,7 +769,7 @@ func steps2ops(steps []xstep) [][]int {
 
 type stats struct {
 	sameKeyInBatch, multiKeyBatch, readAfterChange, foreignResult bool
-	liveDeletes, overwrites, timers, bytesWritten               int
+	liveDeletes, overwrites, timers, bytesWritten                 int
 }
 
 // analyse is only used for distribution tags / the non-triviality rule (restores are ignored: heuristic).
